@@ -649,7 +649,7 @@ func runC10(c *fw.Ctx) {
 	decRule := res.Rule
 	res.Rule = "(1) DECODING: " + decRule + " (2) VALIDATION: for every block of random valid chains (all modes incl. the legacy ephemeral window), every applicable structure-aware mutant (extreme currencies in outputs/fees/contracts/rollovers/payouts, overlong/empty/garbage Merkle proofs, huge leaf indices, covered-field and signature indices out of range, unknown/forged parents incl. forged ephemeral parents and forged siafund claim starts, missing/short/emptied supplements, wrong or nil resolution kinds, policies 2000 levels deep or 1300 children wide, 1000 surplus witnesses, absurd heights and timestamps) is fed to ValidateBlock under recover: it must return (accept or reject), never panic; every accepted block or mutant is applied and reverted under recover. Non-trivial = mutant of a block with transactions."
 	var ops, outs, kinds []string
-	nChains := c.Budget(24, 400)
+	nChains := c.Budget(24, 120)
 	if c.Search && c.Tier != "thorough" {
 		nChains = 120 // a broken proof on the quick tier: search wider than quick, but finish in minutes
 	}
